@@ -1,3 +1,4 @@
+import copy
 from collections.abc import Iterable
 from contextlib import suppress
 from dataclasses import dataclass, field, replace
@@ -311,7 +312,11 @@ class DictDecoder:
             )
 
         if var.any_type or var.is_wildcard:
-            # field can support any object return the value as it is
+            # field can support any object return the value as it is,
+            # but not the caller's own containers
+            if isinstance(value, (list, dict)):
+                return copy.deepcopy(value)
+
             return value
 
         try:
